@@ -42,7 +42,7 @@ PROPS["C18"] = {
     "outside": "name-field parsing variety; zones of other lengths; quick tier: fillers inside the birth/expiry fields of the route harness",
     "assumptions": ["space is tolerated like the filler in check-digit computation (as the implementation documents)"],
     "jobs": [
-        {"func": "verifH_C18_cd_step", "pkg": "mrz", "params": {"N": [0, 1, 2, 3]}, "unwind": 64, "canon8": True, "expect_reach": ["step"]},
+        {"func": "verifH_C18_cd_step", "pkg": "mrz", "params": {"N": [0, 1, 2]}, "unwind": 64, "canon8": True, "expect_reach": ["step"]},
         {"func": "verifH_C18_sound", "pkg": "mrz", "params": {"layout": [1, 2, 3]}, "unwind": 100, "canon8": True, "stubs": ["mrz.ParseName:nondet"], "expect_reach": ["accepted", "rejected"]},
         {"func": "verifH_C18_complete", "pkg": "mrz", "params": {"layout": [1, 2, 3]}, "unwind": 100, "canon8": True, "expect_reach": ["decoded"]},
         {"func": "verifH_C18_routes", "pkg": "mrz", "params": {"layout": [1, 2, 3], "dates_digits": 1}, "params_thorough": {"dates_digits": 0}, "unwind": 100, "canon8": True, "stubs": ["mrz.ParseName:nondet"], "expect_reach": ["re-encoded"]},
@@ -61,5 +61,18 @@ PROPS["C02"] = {
     "jobs": [
         {"func": "verifH_C02_summary", "pkg": "document", "unwind": 16, "expect_reach": ["summary", "trusted", "AA", "CA", "PACE-CAM"]},
         {"func": "verifH_C02_complete", "pkg": "document", "unwind": 16, "stubs": ["document.Contains:nondet"], "expect_reach": ["complete", "incomplete", "cardaccess-checked"]},
+    ],
+}
+
+PROPS["C13"] = {
+    "patterns": ["./iso7816"],
+    "harness": {"iso7816": ["iso7816/c13.go"]},
+    "level_text": "The SSA of NfcSession.ReadFile/readWithFallback/ReadBinaryFromOffset/SelectEF/DoAPDU/doTransceive, CApdu.Encode, ParseRApdu and tlv.ParseTagAndLength is executed against a nondeterministic chip written from ISO 7816-4 §11.2.3: the EF content is an uninterpreted byte sequence of symbolic length 0..65543 (one BER-TLV object plus optional trailing bytes), SELECT answers 9000/6A82/6283/any other status, each READ BINARY returns an arbitrary number of bytes 1..min(Ne, remaining) chosen per call, rejects Ne above an arbitrary per-chip cap (drives the 256/192/128 fallback ladder), and treats P1 bit 8 as short-EF addressing (another file's bytes). maxLe is symbolic in 1..65536. z3 shows: result is (nil,nil) only if SELECT said not-found; otherwise an error or exactly F[0:T] with T from an independent header reader (pointwise via skolem index); every read asks for the next undelivered byte; no read uses short-EF addressing; maxLe is only lowered along the ladder.",
+    "level_note": "Bounded by readFileMaxChunks = 3 (quick) / 1..4 (thorough): because chunk sizes are arbitrary up to 65536, three iterations reach every file size and the second iteration starts from an arbitrary loop state; reads needing more than 4 chunks of different sizes are covered only by that inductive reading. No secure messaging on the link (orthogonal, C03/C10). Trusted: gosym incl. models of bytes.Buffer/time.Now/slog, z3-new 5.1 with bit-blasting tactic (fallback: default solver).",
+    "bounds": "file length 0..65543 bytes, arbitrary content; chunk sizes 1..65536 per read; chip cap 1..65536; maxLe 1..65536; file id 0..65535; at most 3 (4) loop iterations after the header read, each first-block read with up to 3 fallbacks",
+    "outside": "reads that need more than readFileMaxChunks=3/4 iterations; odd-INS READ BINARY (not implemented by gmrtd: offsets > 32767 are rejected)",
+    "assumptions": ["chip model: ISO 7816-4 READ BINARY with even INS as described in harness/iso7816/c13.go"],
+    "jobs": [
+        {"func": "verifH_C13_readfile", "pkg": "iso7816", "params": {"chunks": 3}, "params_thorough": {"chunks": [1, 2, 3, 4]}, "unwind": 12, "timeout_ms": 90000, "expect_reach": ["data", "error", "select-failed"]},
     ],
 }
